@@ -259,3 +259,74 @@ def l4(ctx):
 def l5(ctx):
     from .c02 import e3
     return e3(ctx)
+
+
+@rule("C05", "L6", floor=1, kind="S",
+      desc="only the holder releases the index lock: the store layer never removes or renames a *.lock file by path "
+           "(GitFile.abort()/close() of the holder are the only ways out) - otherwise a writer that was refused as "
+           "locked can delete the lock of the writer that holds it")
+def l6(ctx):
+    from .storelib import FS_MUTATORS, _fold
+    obs = []
+    nsites = 0
+    for mname in ("xandikos.store.git", "xandikos.store", "xandikos.store.vdir", "xandikos.store.index", "xandikos.store.config"):
+        for fi in ctx.P.funcs_in_module(mname):
+            cfg = ctx.cfg(fi)
+            du = None
+            for n in cfg.stmt_nodes():
+                for c in n.calls():
+                    d = dotted(c.func) or ""
+                    if d not in FS_MUTATORS or not c.args:
+                        continue
+                    nsites += 1
+                    du = du or DefUse(cfg)
+                    hits = []
+                    for a in c.args[:2]:
+                        todo = [(n, a, 0)]
+                        while todo:
+                            nd, e, depth = todo.pop()
+                            for x in ast.walk(e):
+                                v = x.value if isinstance(x, ast.Constant) else _fold(fi.module, x) if isinstance(x, (ast.Name, ast.Attribute)) else None
+                                if isinstance(v, str) and v.endswith(".lock"):
+                                    hits.append(v)
+                                if isinstance(x, ast.Name) and depth < 4:
+                                    for df in du.reaching(nd, x.id):
+                                        if df.value is not None and df.node is not None and df.kind == "assign":
+                                            todo.append((df.node, df.value, depth + 1))
+                    if hits:
+                        obs.append(ctx.bad(fi.qualname, where(fi, n), "lock file removed by path",
+                                           "`%s` removes/renames a lock file (%s) by path: it also runs when somebody else holds the lock (e.g. after "
+                                           "FileLocked), so a refused writer destroys the holder's lock and a third writer gets in" % (node_desc(n), hits[0])))
+    obs.append(ctx.ob(not obs, "xandikos.store", "xandikos/store/", "no lock file is removed or renamed by path",
+                      "%d file-system mutator call sites in the store layer, none of them names a *.lock path" % nsites,
+                      "lock files are manipulated by path"))
+    if nsites < 4:
+        raise AnalysisError("only %d file-system mutator call sites found in the store layer" % nsites)
+    return obs
+
+
+@rule("C05", "L7", floor=4, kind="S",
+      desc="the uid maps belong to one store object: they are created afresh in __init__ (`self._x = {}`) and are not "
+           "class attributes - a map shared by all collections of the process lets a write to one collection release or "
+           "hide a UID of another")
+def l7(ctx):
+    obs = []
+    for cq in ("xandikos.store.git.GitStore", "xandikos.store.vdir.VdirStore"):
+        ci = ctx.P.cls(cq)
+        init = ctx.own_method(cq, "__init__")
+        cfg = ctx.cfg(init)
+        for attr in ("_fname_to_uid", "_uid_to_fname"):
+            fresh = False
+            for n in cfg.stmt_nodes():
+                a = n.ast
+                if n.kind == "stmt" and isinstance(a, (ast.Assign, ast.AnnAssign)) and a.value is not None:
+                    tg = a.targets if isinstance(a, ast.Assign) else [a.target]
+                    if any(dotted(t) == "self." + attr for t in tg):
+                        v = a.value
+                        fresh = (isinstance(v, ast.Dict) and not v.keys) or (isinstance(v, ast.Call) and dotted(v.func) in ("dict", "collections.OrderedDict", "OrderedDict") and not v.args and not v.keywords)
+            shared = [c for c in ci.mro if attr in c.attrs and not (isinstance(c.attrs[attr], ast.Constant) and c.attrs[attr].value is None)]
+            obs.append(ctx.ob(fresh and not shared, cq + "." + attr, init.where, "%s is per store object" % attr,
+                              "assigned a new dict in __init__, no class-level value",
+                              "%s.%s is %s: every store object of the process shares one map, so a scan of one collection drops or hides the UIDs of another"
+                              % (ci.name, attr, ("a class attribute of %s" % shared[0].name) if shared else "not created afresh in __init__")))
+    return obs
